@@ -74,6 +74,7 @@ type Task struct {
 	done    bool
 	parent  int
 	started time.Time
+	prio    int
 }
 
 type Sim struct {
@@ -81,7 +82,6 @@ type Sim struct {
 	cfg  Config
 
 	mu     sync.Mutex
-	byGoid map[uint64]*Task
 	all    []*Task
 	parked []*Task
 	notify chan struct{}
@@ -111,15 +111,21 @@ type Sim struct {
 var active atomic.Pointer[Sim]
 
 // Active reports whether a simulation is running in this process.
+//
+//go:norace
 func Active() bool { return active.Load() != nil }
 
 // Cur returns the running simulation or nil.
+//
+//go:norace
 func Cur() *Sim { return active.Load() }
 
 const TickLimit = 200_000_000
 
 // Run executes root as task 0 under the seeded scheduler inside the current
 // synctest bubble. It must be called from the bubble's root goroutine.
+//
+//go:norace
 func Run(tape *Tape, cfg Config, root func()) Result {
 	if cfg.MaxSteps == 0 {
 		cfg.MaxSteps = 200000
@@ -130,7 +136,6 @@ func Run(tape *Tape, cfg Config, root func()) Result {
 	s := &Sim{
 		Tape:     tape,
 		cfg:      cfg,
-		byGoid:   map[uint64]*Task{},
 		notify:   make(chan struct{}, 1),
 		siteHits: map[int]int{},
 		prio:     map[int]int{},
@@ -178,6 +183,8 @@ func Run(tape *Tape, cfg Config, root func()) Result {
 }
 
 // Seq returns the next global event sequence number.
+//
+//go:norace
 func Seq() uint64 {
 	if s := active.Load(); s != nil {
 		return s.seq.Add(1)
@@ -186,37 +193,46 @@ func Seq() uint64 {
 }
 
 // Now is the simulated time since the start of the run.
+//
+//go:norace
 func (s *Sim) Elapsed() time.Duration { return time.Since(s.t0) }
 
+//go:norace
 func (s *Sim) spawn(parent, site int, fn func()) *Task {
 	s.mu.Lock()
 	t := &Task{ID: len(s.all), Site: site, resume: make(chan grant), parent: parent, started: time.Now()}
 	s.all = append(s.all, t)
 	if s.strategy == 3 {
-		s.prio[t.ID] = 1000 + int(s.srng.next()%1000000)
+		t.prio = 1000 + int(s.srng.next()%1000000)
 	}
 	s.mu.Unlock()
-	go func() {
-		raceDisable()
-		t.goid = goid()
-		s.mu.Lock()
-		s.byGoid[t.goid] = t
-		s.mu.Unlock()
-		defer s.exit(t)
-		s.park(t, site, 0)
-		raceEnable()
-		fn()
-	}()
+	// the go statement itself must be visible to the race detector: it is the happens-before edge from the
+	// parent to the new goroutine (everything the parent built before starting it)
+	raceEnable()
+	go s.taskMain(t, site, fn)
+	raceDisable()
 	return t
 }
 
+// taskMain is the body of a task goroutine.
+//
+//go:norace
+func (s *Sim) taskMain(t *Task, site int, fn func()) {
+	raceDisable()
+	t.goid = goid()
+	defer s.exit(t)
+	s.park(t, site, 0)
+	raceEnable()
+	fn()
+}
+
+//go:norace
 func (s *Sim) exit(t *Task) {
 	r := recover()
 	raceDisable()
 	defer raceEnable()
 	s.mu.Lock()
 	t.done = true
-	delete(s.byGoid, t.goid)
 	if r != nil && !s.crashed {
 		s.crashed = true
 		if sp, ok := r.(spinPanic); ok {
@@ -237,6 +253,7 @@ func (s *Sim) exit(t *Task) {
 
 type spinPanic int64
 
+//go:norace
 func trimStack(st string) string {
 	lines := strings.Split(st, "\n")
 	if len(lines) > 60 {
@@ -245,16 +262,27 @@ func trimStack(st string) string {
 	return strings.Join(lines, "\n")
 }
 
+//go:norace
 func (s *Sim) task() *Task {
 	g := goid()
 	s.mu.Lock()
-	t := s.byGoid[g]
+	// (a scan instead of a map: the runtime's map functions report to the race detector on behalf of their
+	// caller even from //go:norace functions)
+	var t *Task
+	for _, x := range s.all {
+		if x.goid == g && !x.done {
+			t = x
+			break
+		}
+	}
 	s.mu.Unlock()
 	return t
 }
 
 // park registers the calling task as parked at site and blocks until the
 // scheduler releases it.
+//
+//go:norace
 func (s *Sim) park(t *Task, site int, selN int) grant {
 	if s.aborting.Load() {
 		raceEnable()
@@ -277,6 +305,7 @@ func (s *Sim) park(t *Task, site int, selN int) grant {
 	return g
 }
 
+//go:norace
 func (s *Sim) yield(site int, selN int) grant {
 	t := s.task()
 	if t == nil {
@@ -296,6 +325,8 @@ func (s *Sim) yield(site int, selN int) grant {
 
 // Yield is a scheduling point: the calling task parks and continues when the
 // scheduler picks it. No-op outside a simulation and for foreign goroutines.
+//
+//go:norace
 func Yield(site int) {
 	s := active.Load()
 	if s == nil {
@@ -308,6 +339,8 @@ func Yield(site int) {
 
 // Woke must follow every blocking operation: the goroutine that has just been
 // woken parks before it touches anything, so that still only one task runs.
+//
+//go:norace
 func Woke(site int) {
 	s := active.Load()
 	if s == nil {
@@ -319,6 +352,8 @@ func Woke(site int) {
 }
 
 // Go starts fn as a new task (a plain goroutine outside a simulation).
+//
+//go:norace
 func Go(site int, fn func()) {
 	s := active.Load()
 	if s == nil {
@@ -339,6 +374,8 @@ func Go(site int, fn func()) {
 
 // Tick is inserted at loop back-edges: a deterministic detector for loops
 // that never reach a synchronisation point.
+//
+//go:norace
 func Tick() {
 	s := active.Load()
 	if s == nil {
@@ -356,6 +393,8 @@ func Tick() {
 }
 
 // Sleep replaces time.Sleep in instrumented code.
+//
+//go:norace
 func Sleep(site int, d time.Duration) {
 	Yield(site)
 	time.Sleep(d)
@@ -364,6 +403,8 @@ func Sleep(site int, d time.Duration) {
 
 // OnAbort registers a function the scheduler calls when it tears the run down
 // (closing simulated connections so that library goroutines can exit).
+//
+//go:norace
 func (s *Sim) OnAbort(f func()) {
 	s.mu.Lock()
 	s.onAbort = append(s.onAbort, f)
@@ -372,6 +413,7 @@ func (s *Sim) OnAbort(f func()) {
 
 // ---- the scheduler loop (runs on the bubble's root goroutine) ----
 
+//go:norace
 func (s *Sim) loop() {
 	horizon := time.NewTimer(s.cfg.Horizon)
 	defer horizon.Stop()
@@ -437,6 +479,7 @@ func (s *Sim) loop() {
 	s.teardown()
 }
 
+//go:norace
 func (s *Sim) step() {
 	s.mu.Lock()
 	// order: current task first (choice 0 = no context switch), then by id
@@ -493,6 +536,8 @@ var stallTable = []time.Duration{
 }
 
 // decide picks the index of the parked task to release.
+//
+//go:norace
 func (s *Sim) decide(n int) int {
 	st := s.Tape.S
 	if n <= 1 {
@@ -509,12 +554,12 @@ func (s *Sim) decide(n int) int {
 		if len(s.pctLeft) > 0 && s.res.Steps >= s.pctLeft[0] {
 			s.pctLeft = s.pctLeft[1:]
 			if s.cur != nil {
-				s.prio[s.cur.ID] = len(s.pctLeft)
+				s.cur.prio = len(s.pctLeft)
 			}
 		}
 		best := 0
 		for i, t := range s.parked {
-			if s.prio[t.ID] > s.prio[s.parked[best].ID] {
+			if t.prio > s.parked[best].prio {
 				best = i
 			}
 		}
@@ -530,6 +575,8 @@ func (s *Sim) decide(n int) int {
 
 // decideAux draws a secondary decision (select scan start, stall) that is
 // recorded on the schedule tape as well. zeroBias is the percentage of zeros.
+//
+//go:norace
 func (s *Sim) decideAux(n int, zeroBias int) int {
 	st := s.Tape.S
 	if n <= 1 {
@@ -546,11 +593,13 @@ func (s *Sim) decideAux(n int, zeroBias int) int {
 	return v
 }
 
+//go:norace
 func (st *Stream) put(v int) {
 	st.Vals = append(st.Vals, v)
 	st.pos++
 }
 
+//go:norace
 func (s *Sim) describeLive() string {
 	s.mu.Lock()
 	defer s.mu.Unlock()
@@ -566,6 +615,7 @@ func (s *Sim) describeLive() string {
 	return strings.Join(parts, " ")
 }
 
+//go:norace
 func (s *Sim) teardown() {
 	s.mu.Lock()
 	for _, t := range s.all {
@@ -597,9 +647,13 @@ func (s *Sim) teardown() {
 }
 
 // SiteHits returns how often each site was the release point of a step.
+//
+//go:norace
 func (s *Sim) SiteHits() map[int]int { return s.siteHits }
 
 // Aborting is true while the run is torn down; shims use it to bail out.
+//
+//go:norace
 func Aborting() bool {
 	s := active.Load()
 	return s != nil && s.aborting.Load()
@@ -612,6 +666,7 @@ var (
 	siteNames = map[int]string{}
 )
 
+//go:norace
 func RegisterSites(m map[int]string) {
 	siteMu.Lock()
 	for k, v := range m {
@@ -620,6 +675,7 @@ func RegisterSites(m map[int]string) {
 	siteMu.Unlock()
 }
 
+//go:norace
 func SiteName(id int) string {
 	woke := false
 	if id < 0 {
@@ -638,6 +694,7 @@ func SiteName(id int) string {
 	return n
 }
 
+//go:norace
 func AllSites() map[int]string {
 	siteMu.Lock()
 	defer siteMu.Unlock()
@@ -653,6 +710,8 @@ func AllSites() map[int]string {
 // Sender replaces `c <- v` by `simrt.Sender(site, c)(v)`: the channel and then
 // the value are evaluated, then comes the scheduling point, the send and the
 // post-block park.
+//
+//go:norace
 func Sender[T any](site int, c chan<- T) func(T) {
 	return func(v T) {
 		if active.Load() == nil {
@@ -666,6 +725,8 @@ func Sender[T any](site int, c chan<- T) func(T) {
 }
 
 // Recv replaces `<-c`.
+//
+//go:norace
 func Recv[T any](site int, c <-chan T) T {
 	if active.Load() == nil {
 		return <-c
@@ -677,6 +738,8 @@ func Recv[T any](site int, c <-chan T) T {
 }
 
 // Recv2 replaces `v, ok := <-c`.
+//
+//go:norace
 func Recv2[T any](site int, c <-chan T) (T, bool) {
 	if active.Load() == nil {
 		v, ok := <-c
@@ -689,16 +752,21 @@ func Recv2[T any](site int, c <-chan T) (T, bool) {
 }
 
 // Close replaces close(c).
+//
+//go:norace
 func Close[T any](site int, c chan<- T) {
 	Yield(site)
 	close(c)
 }
 
 // RecvCase / SendCase build the operands of a rewritten select.
+//
+//go:norace
 func RecvCase[T any](c <-chan T) reflect.SelectCase {
 	return reflect.SelectCase{Dir: reflect.SelectRecv, Chan: reflect.ValueOf(c)}
 }
 
+//go:norace
 func SendCase[T any](c chan<- T) func(T) reflect.SelectCase {
 	return func(v T) reflect.SelectCase {
 		return reflect.SelectCase{Dir: reflect.SelectSend, Chan: reflect.ValueOf(c), Send: reflect.ValueOf(&v).Elem()}
@@ -706,6 +774,8 @@ func SendCase[T any](c chan<- T) func(T) reflect.SelectCase {
 }
 
 // As converts the received reflect.Value back to the element type of c.
+//
+//go:norace
 func As[T any](c <-chan T, v reflect.Value) T {
 	var zero T
 	if !v.IsValid() {
@@ -719,6 +789,8 @@ func As[T any](c <-chan T, v reflect.Value) T {
 // the chosen case (len(cases) for default). Under simulation the cases are
 // probed one by one starting at a tape-chosen index, so the simulator — not
 // the runtime's hidden RNG — picks among simultaneously ready cases.
+//
+//go:norace
 func Select(site int, hasDefault bool, cases ...reflect.SelectCase) (int, reflect.Value, bool) {
 	s := active.Load()
 	n := len(cases)
@@ -772,12 +844,17 @@ func Select(site int, hasDefault bool, cases ...reflect.SelectCase) (int, reflec
 
 const siteSleep = 1_000_301
 
+//go:norace
 func init() { RegisterSites(map[int]string{siteSleep: "time.Sleep", 0: "root"}) }
 
 // SleepD replaces time.Sleep in instrumented code.
+//
+//go:norace
 func SleepD(d time.Duration) { Sleep(siteSleep, d) }
 
 // CurTask returns the id of the calling task, or -1 for a foreign goroutine.
+//
+//go:norace
 func CurTask() int {
 	s := active.Load()
 	if s == nil {
